@@ -57,7 +57,7 @@ def run_case(acc, case):
     fw = bytes(rng.randrange(256) for _ in range(min(length, 2048)))
     fw = (fw * (length // max(1, len(fw)) + 1))[:length]
     errors = {int(k): s for k, s in case['inject']}
-    dev = dfusim.Device(variant, pattern_seed=5, errors=errors, stall_in_error=case['stall'],
+    dev = dfusim.Device(variant, pattern_seed=5, errors=errors, stall_in_error=case['stall'], error_state=dfusim.DNLOAD_IDLE if case.get('idle_state') else dfusim.ERROR,
                         default_busy=[rng.choice([0, 1, 50])] * rng.choice([0, 1, 2]))
     r = dfusim.run(fw, dev)
     # operation index -> step name for the message: npages erases, then (set-address, write) per page
@@ -72,7 +72,7 @@ def run_case(acc, case):
     if not dev.error_reports:
         acc['ctr']['fault_not_reached'] += 1      # e.g. second fault after the tool already stopped
         return
-    acc['ntkeys'].add(core.ckey(variant, npages, tuple(map(tuple, case['inject'])), case['stall']))
+    acc['ntkeys'].add(core.ckey(variant, npages, tuple(map(tuple, case['inject'])), case['stall'], case.get('idle_state')))
     k0, st0 = dev.error_reports[0]
     core.see(acc, 'failed_step_kinds', step(k0).split(' page')[0])
     acc['ctr']['error_statuses_delivered'] += len(dev.error_reports)
@@ -138,6 +138,11 @@ def plan(tier, seed):
                 for stall in (True, False):
                     for s in ([4, 6, 7, 8] if tier == 'quick' else STATUS):
                         cases.append({'kind': 'fault', 'variant': v, 'npages': npages, 'inject': [[k, s]], 'stall': stall, 'short': 3})
+    for npages in (1, 2, 3):
+        for k in range(3 * npages):
+            for s in (3, 4, 6, 7):
+                # a device that announces the error status but not the dfuERROR state
+                cases.append({'kind': 'fault', 'variant': '4', 'npages': npages, 'inject': [[k, s]], 'stall': False, 'short': 0, 'idle_state': True})
     for npages in (1, 2, 3):
         for k in range(3 * npages):
             for s in VENDOR:
